@@ -13,6 +13,9 @@ from .c10 import formulas as c10_formulas
 
 
 def run(rep, prog, tier):
+    from .hidden import no_hidden_state
+    rep.rule('R11.state', 'no hidden state in the anchored modules: no function writes a module-level object, no caching decorator / cached property')
+    no_hidden_state(rep, 'R11.state', prog, ['Network/NodalAnalysis/state_space_model.py', 'Circuit/solution.py', 'SignalProcessing/state_space_model.py'])
     rep.rule('R11.lambda', 'Lambda = diag(-C..., +L...) taken from c_values / l_values in the order of the state incidence; invLambda is the element-wise reciprocal; A = invLambda @ S (left multiplication)')
     rep.rule('R11.rest', 'the simulation starts from the zero state: lsim is called without an initial state (or with the zero vector passed by TransientSolution)')
     rep.assume('NOT DECIDED: definiteness of W A + A^T W, eigenvalue location, boundedness of simulated energy (run-time values)')
